@@ -83,6 +83,24 @@ _NOTES = {
 }
 for _k in ('C01', 'C02', 'C03', 'C04', 'C05', 'C07', 'C11', 'C13', 'C15'):
     PROPS[_k]['extra_modules'] = ['Daac.Props.Alarms']   # evaluated invariants never false-alarm on model-built tables
+# Translation tie (tools/rs2lean.py + Daac/Props/Tie.lean): which generated definitions each property
+# is about (regexes over the names in lean/Daac/Gen/search_defs.json). A broken equality is
+# attributed to a property only if one of these definitions changed.
+_T_COMMON = [r'\.DA\.child_index_unchecked$', r'\.CodeMapper\.get$', r'\.CharWithEndOffsetIterator\.', r'\.struct\.CharWithEndOffsetIterator$',
+             r'\.U8SliceIterator\.', r'\.StrIterator\.', r'\.struct\.(U8Slice|Str)Iterator$']
+_T_STD = _T_COMMON + [r'\.DA\.next_state_id_unchecked$', r'\.MatchKind\.is_standard$']
+_T_LM = _T_COMMON + [r'\.DA\.next_state_id_leftmost_unchecked$', r'\.MatchKind\.is_leftmost$',
+                     r'\.LestmostFindIterator\.', r'\.struct\.LestmostFindIterator$', r'\.DA\.leftmost_find_iter$']
+_T_OV = [r'\.FindOverlappingIterator\.', r'\.struct\.FindOverlappingIterator$', r'\.DA\.find_overlapping_iter(_from_iter)?$']
+_T_FIND = [r'^[BC]\.FindIterator\.', r'\.struct\.FindIterator$', r'\.DA\.find_iter(_from_iter)?$']
+_T_NS = [r'\.FindOverlappingNoSuffixIterator\.', r'\.struct\.FindOverlappingNoSuffixIterator$', r'\.DA\.find_overlapping_no_suffix_iter(_from_iter)?$']
+_T_ALL = _T_STD + _T_LM + _T_OV + _T_FIND + _T_NS
+_TIE = {'C01': _T_STD + _T_OV, 'C02': _T_STD + _T_FIND, 'C05': _T_STD + _T_NS, 'C03': _T_LM, 'C04': _T_LM,
+        'C06': _T_ALL, 'C07': _T_ALL, 'C08': [r'^C\.'], 'C12': _T_STD + _T_OV + _T_FIND + _T_NS, 'C13': _T_ALL}
+for _k, _v in _TIE.items():
+    PROPS[_k]['tie_defs'] = _v
+    PROPS[_k]['extra_modules'] = PROPS[_k].get('extra_modules', []) + ['Daac.Props.Tie']
+    PROPS[_k]['trusted_extra'] = ['the Rust-to-Lean translator tools/rs2lean.py and its prelude lean/Daac/Gen/Prelude.lean (meaning of the std items; fuel for `loop`); the equalities generated = model are theorems (Daac/Props/Tie.lean)']
 for _k, (_s, _r) in _NOTES.items():
     PROPS[_k]['statement'] = _s
     PROPS[_k]['residue'] = _r
